@@ -205,12 +205,14 @@ def units(tier, seed, only=None):
                         replace=['orc_parse_find_line_length', 'orc_parse_advance', '_strndup'], **HF))
     us.append(core.Unit('orc_parse_handle_function', SRC, 'h_orc_parse_handle_function', enforce='orc_parse_handle_function',
                         replace=API + ['orc_parse_sanity_check'], defines=['API_OPAQUE'] if opaque_ok('orc_parse_handle_function') else [], **HF))
+    from . import c14_plain
+    us += c14_plain.units(tier, seed)
     if only:
         us = [u for u in us if re.search(only, u.name)]
     return us
 
 
-NOT_COVERED = ['orc_parse_handle_source', 'orc_parse_handle_dest', 'orc_parse_handle_dotn', 'orc_parse_handle_opcode',
+NOT_COVERED = ['orc_parse_handle_source, _dest, _dotn, _opcode: only in assume/assert form (units *:plain), not under dfcc',
                'orc_parse_handle_directive (function-pointer dispatch)', 'orc_parse_sanity_check', 'orc_parse_code (main loop)',
                'orc_parse_error_freev', 'orc_parse_splat_error', 'orc_parse_full']
 
